@@ -567,6 +567,15 @@ func RunC07(run *vk.Run) {
 	genuineBytes, _ := proto.Marshal(genuine)
 
 	os.Setenv("VERIF_C07_ENDORSEMENT", base64.StdEncoding.EncodeToString(genuineBytes))
+	report := rp.Report(rp.Meas("p1"))
+	report.Signature = make([]byte, sabi.SignatureSize)
+	report.Policy = rp.ProdPolicy
+	report.SignatureAlgo = 1
+	rawSnpReport, rawErr := sabi.ReportToAbiBytes(report)
+	if rawErr != nil {
+		rawSnpReport = nil
+		run.Extra["raw_snp_report_unavailable"] = rawErr.Error()
+	}
 
 	// --- endofields rows
 	garbage := []byte{0xff, 0xff, 0xff, 0xff, 0xff, 0xff, 0xff, 0xff, 0xff, 0xff, 0x7f, 1}
@@ -699,6 +708,47 @@ func RunC07(run *vk.Run) {
 		return
 	}
 
+	// --- certtable rows: one header entry (offset, length) in a table of L units of 4 bytes
+	if !tlc("certtable", true, func(raw json.RawMessage) error {
+		var c struct {
+			Row struct{ L, O, Ln int } `json:"row"`
+			Res string                 `json:"res"`
+		}
+		if err := json.Unmarshal(raw, &c); err != nil {
+			return err
+		}
+		const m2 = 32
+		tbl := make([]byte, 4*c.Row.L)
+		for i := 48; i < len(tbl); i++ {
+			tbl[i] = byte(i)
+		}
+		off, ln := uint32(4*c.Row.O), uint32(4*c.Row.Ln)
+		if c.Row.O+c.Row.Ln >= m2 { // the 32-bit sum wraps: keep the relation of the offset to the table
+			if c.Row.O <= c.Row.L {
+				ln = uint32(0x100000000 - uint64(4*(m2-c.Row.Ln)))
+			} else {
+				off = uint32(0x100000000 - uint64(4*(m2-c.Row.O)))
+			}
+		}
+		copy(tbl, efiGUIDBytes(sev.GCEFwCertGUID))
+		// go-sev-guest writes GUIDs big-endian (uuid bytes); use its own marshalling for the GUID
+		g := uuid.MustParse(sev.GCEFwCertGUID)
+		copy(tbl[0:16], g[:])
+		binary.LittleEndian.PutUint32(tbl[16:], off)
+		binary.LittleEndian.PutUint32(tbl[20:], ln)
+		exp := ""
+		if c.Res == "err" {
+			exp = "attestation=err endorsement=err"
+		}
+		add(rpCase{Target: "quote", Data: tbl, Key: "certtable", Expect: exp})
+		if rawSnpReport != nil {
+			add(rpCase{Target: "quote", Data: append(append([]byte{}, rawSnpReport...), tbl...), Key: "certtable-after-report"})
+		}
+		return nil
+	}) {
+		return
+	}
+
 	// --- locator rows
 	if !tlc("locator", false, func(raw json.RawMessage) error {
 		var c struct {
@@ -747,10 +797,6 @@ func RunC07(run *vk.Run) {
 	// --- genuine objects: every truncation, seeded byte mutations, field mutations
 	r := rand.New(rand.NewSource(run.Seed))
 	quick := run.IsQuick()
-	report := rp.Report(rp.Meas("p1"))
-	report.Signature = make([]byte, sabi.SignatureSize)
-	report.Policy = rp.ProdPolicy
-	report.SignatureAlgo = 1
 	chain := &spb.CertificateChain{VcekCert: m.Vcek.Raw, Extras: map[string][]byte{sev.GCEFwCertGUID: genuineBytes}}
 	sevAt := &spb.Attestation{Report: report, CertificateChain: chain}
 	sevAtBytes, _ := proto.Marshal(sevAt)
@@ -759,10 +805,8 @@ func RunC07(run *vk.Run) {
 	table := &sabi.CertTable{Entries: []sabi.CertTableEntry{{GUID: uuid.MustParse(sabi.VcekGUID), RawCert: m.Vcek.Raw}, {GUID: uuid.MustParse(sev.GCEFwCertGUID), RawCert: genuineBytes}}}
 	tableBytes := table.Marshal()
 	var rawSnp []byte
-	if rb, err := sabi.ReportToAbiBytes(report); err == nil {
-		rawSnp = append(append([]byte{}, rb...), tableBytes...)
-	} else {
-		run.Extra["raw_snp_report_unavailable"] = err.Error()
+	if rawSnpReport != nil {
+		rawSnp = append(append([]byte{}, rawSnpReport...), tableBytes...)
 	}
 	elog, err := genuineEventLog(genuineBytes)
 	if err != nil {
